@@ -75,7 +75,7 @@ def observe(sid, other):
 def case(g, tier, ci):
     r = g.r
     SR = r.choice([1, 10, 100, 2.5, 1e6, 1e9])
-    chans = r.sample([1, 2, 3, "A", "B"], r.randint(1, 3))
+    chans = r.sample([1, 2, 3, "A", "B", "a", "ch01", "ch1"], r.randint(1, 3))      # (names that differ only in case or in a leading zero are different channels)
     k = r.randint(0, 5)
     if r.random() < 0.35:
         positions = [r.randint(1, 6) for _ in range(k)]
